@@ -7,7 +7,8 @@ from framework import REPO, ROOT
 
 TIE = ["Nsq.Tie.AdminAgg"]
 PROPS = ["Nsq.Props.C18"]
-STREAMS = [("getv1", "^TestVerifE7GetV1$"), ("latency", "^TestVerifE7Latency$"), ("views", "^TestVerifE7Views$"),
+STREAMS = [("getv1", "^TestVerifE7GetV1$"), ("latency", "^TestVerifE7Latency$"), ("less", "^TestVerifE7Less$"),
+           ("views", "^TestVerifE7Views$"),
            ("malformed", "^TestVerifE7Malformed$")]
 
 
@@ -189,6 +190,11 @@ def expected_status(req, w):
     sel = req["a"] if kind in ("topic", "channel") else ""
     answers = [stats_of(w, p, sel) for p in prods]
     f2 = sum(1 for a in answers if a is None)
+    if not prods:
+        # the property's rule, not the code's: nobody was asked in the second stage, so nothing failed there - the view
+        # is built from what the first stage said (nothing): empty, with a warning iff some first-stage answer failed.
+        # (GetNSQDStats answers "failed to query any nsqd" for zero producers: known finding view:502-without-producers)
+        return (404, None) if kind == "channel" else (200, f1 > 0)
     if f2 == len(prods):
         return 502, None
     if kind == "channel":
@@ -225,6 +231,30 @@ def property_fails_on(op, impl):
         if int(a[1]) > 1 or int(a[2]) > 1:
             return "GETV1 sent %s plain and %s TLS requests for one fetch" % (a[1], a[2])
         return None
+    if op.startswith("less "):
+        # the comparators, recomputed here: by hostname = plain string order; by node topology = the documented rule
+        t = [("" if x == "-" else x) for x in op.split()[2:]]
+        if impl not in ("0", "1"):
+            return "comparator answer %r" % impl[:100]
+        if op.split()[1] == "host":
+            want = t[0] < t[1]
+        else:
+            a, b = t[:5], t[5:]
+            if a[0] != b[0]:
+                want = a[0] < b[0]
+            elif (a[3], a[4]) == (a[1], a[2]):
+                want = True
+            elif (b[3], b[4]) == (a[1], a[2]):
+                want = False
+            elif a[3] == a[1]:
+                want = True
+            elif b[3] == a[1]:
+                want = False
+            elif a[3] == b[3]:
+                want = a[4] < b[4]
+            else:
+                want = a[3] < b[3]
+        return None if (impl == "1") == want else "comparator %s answered %s on %s" % (op.split()[1], impl, " ".join(op.split()[2:]))
     if op.startswith("lat "):
         # the latency aggregate: whatever shapes the nodes send, decoding and merging must not panic; the aggregate has
         # no nil entry and exactly the distinct quantiles of the non-null entries (recomputed here from the op alone)
@@ -258,6 +288,10 @@ def property_fails_on(op, impl):
     if status == 500:
         return "%s view answered 500 (a panic recovered by the router)" % req["kind"]
     exp, warn = expected_status(req, w)
+    if status == 502 and exp != 502 and req["kind"] in ("topic", "channel", "counter") and not stage1(req, w)[0]:
+        return ("%s view answered 502 although %s: no producer is known, so GetNSQDStats' `len(errs) == len(producers)` "
+                "holds with 0 == 0" % (req["kind"], "every upstream that was asked answered" if stage1(req, w)[1] == 0
+                                       else "some upstreams answered"))
     if status != exp:
         return "%s view answered %d; by the cluster contents it must be %d" % (req["kind"], status, exp)
     if status != 200:
@@ -547,7 +581,7 @@ def run(ctx):
     if not ctx.build_driver("e7"):
         corr_broken.append("driver drv_e7 does not build")
         ctx.broken_ties.append("lake build drv_e7")
-    binp = ctx.go_test_binary("nsqadmin", ["e7/gate_test.go", "e7/view_test.go"], "e7view")
+    binp = ctx.go_test_binary("nsqadmin", ["e7/gate_test.go", "e7/view_test.go", "e7/latency_test.go"], "e7view")
     if not binp:
         ctx.broken_ties.append("harness e7/view_test.go does not compile against the current tree")
         corr_broken.append("harness build")
@@ -602,7 +636,7 @@ def run(ctx):
             kinds = {}
             for o, i in zip(ops, impl):
                 ctx.count_case(o, nontrivial=(i.startswith("200 ") and not i.endswith(" -")) or o.startswith("getv1")
-                               or o.startswith("lat "))
+                               or o.startswith("lat ") or o.startswith("less "))
                 k = o.split()[1] + ":" + i.split()[0]
                 kinds[k] = kinds.get(k, 0) + 1
             ctx.corr.setdefault("outcomes", {})[name] = kinds
@@ -617,8 +651,12 @@ def run(ctx):
                     key = "view:%s:%s" % (req_key(o), i.split()[0])
                     if o.startswith("getv1"):
                         key = "getv1:" + o.split()[2]
+                    if o.startswith("less "):
+                        key = "order:comparator:" + o.split()[1]
                     if o.startswith("lat "):
                         key = "crash:null-percentile" if " panic decode " in " " + i + " " and "nil map" in i else "latency:" + i[:60]
+                    if "no producer is known" in bad:
+                        key = "view:502-without-producers"
                     if "/j:" in o and not o.startswith("lat "):
                         key = "view:upstream-nodes-member"
                     if key == "view:channel:500":
